@@ -42,6 +42,11 @@ def realise(cin, variant):
         obs[free[len(free) // 2]] = -1.0
     out = {"res": "ok", "dq": [], "warn": [], "dqSeries": []}
     role, cls = cin["role"], cin["cls"]
+    empty = cin.get("empty", "none")
+    if empty == "usage":
+        omiss = set(range(S))           # every usage value missing (the column is there)
+    elif empty == "temp":
+        tmiss = set(range(S))
     lead, trail = cin.get("lead", 0), cin.get("trail", 0)
     if lead or trail:
         # days outside the span: present in the frame, with temperature but without usage; both entry points are exercised
